@@ -130,7 +130,7 @@ pub fn run_structured(text: &str, vars: &[(String, String)]) -> String {
     for (k, v) in vars {
         ctx.variables.insert(k.clone(), v.clone());
     }
-    let halt = guarded_halt(3000);
+    let halt = guarded_halt(1500);
     let res = duckscript::runner::run_script(text, ctx, Some(quiet_env(Some(halt.clone()))));
     if halt.load(Ordering::SeqCst) {
         return "timeout".to_string();
